@@ -32,6 +32,9 @@ HAND = [
     "r = { a{1,2} }", "r = { a{ 1 , 2 } }", "r = { a{,} }", "r = { a{} }", "r = { a{1,2,3} }", "r = { a{-1} }", "r = { a{1 2} }", "r = { a{01} }",
     "r = { \"\n\" }", "r = { '\n'..'a' }", "r = { a } //! late doc", "//! a\n//! b\n\nr = { a }", "/// d\n//! g\nr = { a }", "r = { a /// x\n }", "r = { a // x\n }", "r = { a //! x\n }",
     "r = { undefined }", "ANY = { \"a\" }", "r = { a }\nr = { b }", "é = { a }", "r = { \"é😀\" }", "r = { 'é'..'😀' }", "r1_ = { _a1 }", "1r = { a }", "r = { 1 }", "_ = { a }",
+    "a = { (!b ~ ANY)* }\nb = { \"x\" | b2 }\nb2 = { b }", "a = { (!b ~ ANY)* }\nb = { b }", "r = { (!r ~ ANY)* }", "a = { a }", "a = { a ~ \"x\" | \"y\" }", "a = _{ b }\nb = _{ a }",
+    "a = _{ b ~ \"x\" }\nb = _{ a | \"y\" }\nr = { a }", "r = { \"a\" | \"\" }", "r = { (\"a\" | \"\")* }", "r = { \"\"+ }", "WHITESPACE = _{ WHITESPACE }", "COMMENT = _{ r }\nr = { COMMENT }",
+    "r = { ^\"\" | \"ab\" | 'a'..'a' }", "r = { PUSH(\"\") ~ PEEK* }", "r = { (\"a\"){0} }", "r = { \"a\"{300} }", "r = { \"a\"{2,1} }",
     "r = { 'z'..'a' }", "r = { \"\" }", "r = { ^\"\" }", "r = { PUSH(\"\") }", "r = { () }", "r = { }", "r = { ~ }", "r = { a ~ (b | c)+ ~ !d? }", "r = {a~b|c~d}",
 ]
 
@@ -40,16 +43,17 @@ _pest = None
 
 def _init():
     global _pest  # noqa: PLW0603
+    C.die_with_parent()
     _pest = C.import_pest()
 
 
 def observe_load(text: str) -> dict:
     """Load `text` with optimizer=None and with the default optimizer; total."""
     out = {}
-    for key, opt in (("none", None), ("default", "default")):
+    for key, opt in (("none", None), ("default", "default"), ("debug", "debug")):
         try:
             with M.watchdog(20):
-                p = _pest.Parser.from_grammar(text, optimizer=M.optimizer_for(_pest) if opt else None)
+                p = _pest.Parser.from_grammar(text, optimizer=M.optimizer_for(_pest) if opt else None, debug=opt == "debug")
             o = {"class": "parser"}
             if key == "none":
                 try:
